@@ -564,6 +564,7 @@ const RECORDED: &[&str] = &[
     "unsized-array-unbound",
     "nested-array-unbound",
     "struct-resource-unbound",
+    "prototype-default-unused",
 ];
 
 fn show_meta(m: &rssl::ir::export::PipelineDescription) -> String {
@@ -652,6 +653,7 @@ fn judge(case: &Case, tgt: Tgt, pipe: Option<&XPipe>, out: &rssl::CompiledPipeli
         }
     };
     let reach = case.reachable(pipe);
+    let reach_kept = case.reachable_opt(pipe, false);
     let mut res_by_name: BTreeMap<&str, (usize, &XRes)> = BTreeMap::new();
     let mut shared_names: BTreeSet<&str> = BTreeSet::new();
     for (i, r) in case.res.iter().enumerate() {
@@ -783,7 +785,10 @@ fn judge(case: &Case, tgt: Tgt, pipe: Option<&XPipe>, out: &rssl::CompiledPipeli
                 }
                 let reachable = reach.contains(&idx);
                 hist.add(if reachable { "binding=reachable" } else { "binding=unreachable" });
-                if reachable && !b.is_used {
+                if reachable && !b.is_used && !reach_kept.contains(&idx) {
+                    // reachable only through a default value written on a forward declaration: the compiler drops those
+                    fails.push(Fail { class: "prototype-default-unused", detail: format!("`{}` is read by a default argument given on a function prototype only (the call evaluates it) but is_used = false", b.name) });
+                } else if reachable && !b.is_used {
                     fails.push(Fail { class: "reachable-reported-unused", detail: format!("`{}` is reachable from an entry point but is_used = false", b.name) });
                 }
                 if msl && b.is_used && !reachable {
@@ -1163,6 +1168,7 @@ fn run_case(case: &Case, tgt: Tgt, mode: &Mode, out: &mut Out, hist: &mut Hist) 
         if !f.dflt.is_empty() { hist.add("variant=default-argument-use"); }
         if f.nt != 0 { hist.add(&format!("variant=numthreads-spelling-{}", f.nt)); }
         if f.fd { hist.add("variant=forward-declaration"); }
+        if f.tp { hist.add("variant=template-entry-point"); }
     }
     for p in &case.pipes {
         if p.stages.len() == 2 && case.entries[p.stages[0]].stage.as_deref() == Some("Pixel") { hist.add("variant=stages-reversed"); }
@@ -1464,10 +1470,17 @@ fn mutate(case: &mut Case, rng: &mut Rng, hist: &mut Hist) {
             }
         }
     }
-    // forward declarations
+    // forward declarations; a helper with default values repeats them on the definition or -- `po` -- writes them on
+    // the prototype only (the call still evaluates them: the binding is reachable)
     for f in case.helpers.iter_mut().chain(case.entries.iter_mut()) {
-        if f.dflt.is_empty() && rng.chance(1, 8) {
+        if f.dflt.is_empty() {
+            if rng.chance(1, 8) {
+                f.fd = true;
+            }
+        } else if rng.chance(1, 3) {
             f.fd = true;
+            f.po = rng.chance(1, 2);
+            hist.add(if f.po { "variant=defaults-on-prototype-only" } else { "variant=defaults-on-prototype-and-definition" });
         }
     }
     // globals whose initialiser reads resources, calls helpers, reads other globals
@@ -1576,7 +1589,20 @@ fn mutate(case: &mut Case, rng: &mut Rng, hist: &mut Hist) {
 
 /// make the file fail in the front end at pipeline `k` (or at a function / resource it picks); returns what was done
 fn inject_front_error(case: &mut Case, rng: &mut Rng, k: usize) -> &'static str {
-    match rng.below(10) {
+    match rng.below(12) {
+        10 if !case.pipes[k].stages.is_empty() => {
+            // the entry point is a function template
+            let e = case.pipes[k].stages[0];
+            if case.entries[e].fd || case.entries[e].lo {
+                return "";
+            }
+            case.entries[e].tp = true;
+            "entry-point-is-a-template"
+        }
+        11 if !case.pipes[k].stages.is_empty() => {
+            case.pipes[k].qual = true;
+            "entry-point-name-qualified"
+        }
         0 if case.pipes.len() >= 2 => {
             // two blocks of one name: the later one is refused
             let j = if k == 0 { 1 } else { rng.below(k as u64) as usize };
@@ -1610,8 +1636,8 @@ fn inject_front_error(case: &mut Case, rng: &mut Rng, k: usize) -> &'static str 
             "stage-property-twice"
         }
         4 => {
-            // graphics state: an error on a compute pipeline only
-            case.pipes[k].gstate = 1 + rng.below(500) as u32;
+            // graphics state: an error on a compute pipeline only (a random set, or exactly one property of one group)
+            case.pipes[k].gstate = if rng.chance(1, 2) { 1 + rng.below(500) as u32 } else { 9001 + rng.below(4) as u32 };
             "graphics-state"
         }
         5 => {
@@ -1720,6 +1746,10 @@ pub fn run(args: &Args, out: &mut Out) {
             hist.add("generator=undecodable");
             continue;
         };
+        let absent = prng.chance(1, 8);
+        if absent {
+            hist.add("variant=named-pipeline-absent");
+        }
         for tgt in ALL_TARGETS {
             run_case(&case, tgt, &Mode::All, out, &mut hist);
             if !case.pipes.is_empty() {
@@ -1727,6 +1757,10 @@ pub fn run(args: &Args, out: &mut Out) {
                 run_case(&case, tgt, &Mode::Named(case.pipes[k].name.clone()), out, &mut hist);
             }
             run_case(&case, tgt, &Mode::NoPipeline, out, &mut hist);
+            // a pipeline name the file does not have
+            if absent {
+                run_case(&case, tgt, &Mode::Named("P_absent".into()), out, &mut hist);
+            }
         }
         // what the typer builds for the declared types (target independent)
         run_layers(&case, out, &mut hist);
@@ -1752,7 +1786,7 @@ pub fn run(args: &Args, out: &mut Out) {
                         res: vec![XRes::plain("g_t", "Texture2D")],
                         helpers: vec![],
                         entries: vec![XFn { name: "cs_0".into(), stage: Some("Compute".into()), uses: vec![(0, ' ')], threads: Some((8, 4, 1)), ..Default::default() }],
-                        pipes: vec![XPipe { name: "P0".into(), dflt: None, stages: vec![0], gstate: 0, dexpr: false, before: false }],
+                        pipes: vec![XPipe { name: "P0".into(), dflt: None, stages: vec![0], gstate: 0, dexpr: false, before: false, qual: false }],
                     };
                     if role == 0 {
                         case.entries[0].name = name.clone();
